@@ -3,17 +3,28 @@
 //! Generated: sequences of SIP messages (`GenMsg`: start line, header lines as written, body) varied in header
 //! order, Content-Length spelling (name case / compact form, blanks and tabs around the colon, folds, leading
 //! zeros of the 1*DIGIT value up to 34 digits, position, absence on bodiless messages), decoy headers, non-ASCII
-//! UTF-8 text in the head (display names, TEXT-UTF8 values, reason phrases; 2- to 4-byte characters), bodies with
-//! CRLFCRLF / fake messages / up to 65535 bytes; CRLF keep-alives; segmentations (every 1-cut and 2-cut of a
-//! corpus, random cuts, cuts at structural landmarks incl. between the bytes of a multi-byte character, dribble).
-//! Oracle: the stream, fed through FramedRead<_, StreamingDecoder> in exactly that segmentation, must yield the
-//! same messages (start line, header name/value list, body) as each message alone through the datagram parser;
-//! the datagram result itself is cross-checked against the generator's record (body bytes, number of headers).
+//! UTF-8 text in the head (display names, TEXT-UTF8 values, reason phrases; 2- to 4-byte characters), NUMBER OF
+//! HEAD LINES (0 .. ~1000 short header lines of four shapes inside the 4096 byte head: `X-n: v`, 4-byte `q:`
+//! lines, folded values, repeated ordinary headers; Content-Length before / inside / behind them), bodies with
+//! CRLFCRLF / fake messages / up to 65535 bytes, PIPELINES of up to 6 (enumerated: up to 200) messages whose
+//! concatenation is far larger than one maximum-size message; CRLF keep-alives; segmentations (every 1-cut and
+//! 2-cut of a corpus, random cuts, cuts at structural landmarks incl. between the bytes of a multi-byte character,
+//! dribble, equal segments of 2 .. 100000 bytes, one segment per message, one segment per k head lines, a single
+//! cut in the first / last message) and the DRIVER that hands the segments to the decoder, i.e. how much may be
+//! buffered when `decode` is called: `Framed` = tokio_util FramedRead::new as ezk's receive task uses it (8 KiB
+//! read buffer that the decoder grows to the message awaited), `ReadAhead(n)` = FramedRead::with_capacity(n) (a
+//! connection read with a large read-ahead), `Direct` = the tokio_util Decoder contract itself (every segment is
+//! appended whole to the BytesMut, `decode` is called until it returns None, `decode_eof` at the end).
+//! Oracle: the stream, fed through the real StreamingDecoder by that driver in exactly that segmentation, must
+//! yield the same messages (start line, header name/value list, body) as each message alone through the datagram
+//! parser; the datagram result itself is cross-checked against the generator's record (body bytes, number of
+//! headers).
 //! Not asserted: behaviour for input the datagram parser rejects (invalid UTF-8 heads, LF-only line ends),
-//! several Content-Length headers, the kind of error.
+//! several Content-Length headers, the kind of error, heads above 4096 bytes or bodies above 65535 bytes, how
+//! much memory the decoder uses.
 
 use crate::engine::*;
-use bytes::Bytes;
+use bytes::{Bytes, BytesMut};
 use proptest::prelude::*;
 use serde::{Deserialize, Serialize};
 use sip_core::transport::streaming::verif::StreamingDecoder;
@@ -25,7 +36,7 @@ use std::pin::Pin;
 use std::task::{Context, Poll};
 use tokio::io::{AsyncRead, ReadBuf};
 use tokio_stream::StreamExt;
-use tokio_util::codec::FramedRead;
+use tokio_util::codec::{Decoder, FramedRead};
 
 // ---------------------------------------------------------------------------------------------
 // message model
@@ -70,7 +81,7 @@ impl GenMsg {
         s
     }
     pub fn head_len(&self) -> usize {
-        self.bytes().len() - self.body.len()
+        self.start.len() + 2 + self.lines.iter().map(|l| l.len() + 2).sum::<usize>() + 2
     }
 }
 
@@ -150,39 +161,114 @@ impl AsyncRead for ScriptedReader {
     }
 }
 
+/// Who hands the segments to the decoder, i.e. how much can be in the buffer when `decode` is called
+#[derive(Serialize, Deserialize, Clone, Copy, Debug, Hash, PartialEq, Eq, Default)]
+pub enum Driver {
+    /// tokio_util `FramedRead::new`, as ezk's receive task: 8 KiB read buffer, grown by the decoder to the size of
+    /// the message it awaits (a segment larger than the free space is handed out in several reads)
+    #[default]
+    Framed,
+    /// `FramedRead::with_capacity(n)`: the same with a read-ahead of n bytes
+    ReadAhead(u32),
+    /// the tokio_util `Decoder` contract itself: every segment is appended whole to the `BytesMut`, `decode` is
+    /// called until it returns None; `decode_eof` behind the last segment (what any other framing driver may do)
+    Direct,
+}
+
+/// What the decoder was really handed
+#[derive(Debug, Clone, Default)]
+pub struct Trace {
+    /// offsets at which the reads / appends ended (superset of the cuts as far as the stream was read)
+    pub read_ends: Vec<usize>,
+    /// largest number of buffered bytes at the entry of a `decode` / `decode_eof` call
+    pub max_buffered: usize,
+    pub decode_calls: usize,
+}
+
+#[derive(Default)]
+struct ProbeStats {
+    max_buffered: usize,
+    calls: usize,
+}
+
+/// The decoder under test behind a transparent probe that notes how many bytes are buffered at every call
+struct Probe {
+    inner: StreamingDecoder,
+    stats: std::sync::Arc<std::sync::Mutex<ProbeStats>>,
+}
+
+impl Probe {
+    fn new() -> (Self, std::sync::Arc<std::sync::Mutex<ProbeStats>>) {
+        let stats: std::sync::Arc<std::sync::Mutex<ProbeStats>> = Default::default();
+        (Self { inner: StreamingDecoder::new(Default::default()), stats: stats.clone() }, stats)
+    }
+    fn note(&self, len: usize) {
+        let mut s = self.stats.lock().unwrap();
+        s.calls += 1;
+        s.max_buffered = s.max_buffered.max(len);
+    }
+}
+
+impl Decoder for Probe {
+    type Item = <StreamingDecoder as Decoder>::Item;
+    type Error = <StreamingDecoder as Decoder>::Error;
+    fn decode(&mut self, src: &mut BytesMut) -> Result<Option<Self::Item>, Self::Error> {
+        self.note(src.len());
+        self.inner.decode(src)
+    }
+    fn decode_eof(&mut self, src: &mut BytesMut) -> Result<Option<Self::Item>, Self::Error> {
+        self.note(src.len());
+        self.inner.decode_eof(src)
+    }
+}
+
+fn to_parsed(m: <StreamingDecoder as Decoder>::Item) -> Parsed {
+    Parsed {
+        line: m.line.default_print_ctx().to_string(),
+        headers: m
+            .headers
+            .iter()
+            .map(|(n, v)| (n.as_print_str().to_string(), v.to_string()))
+            .collect(),
+        body: m.body.to_vec(),
+    }
+}
+
 /// Feed a segmented stream through the real FramedRead<_, StreamingDecoder>.
 pub fn decode_stream(stream: &[u8], cuts: &[usize]) -> (Vec<Parsed>, Option<String>) {
-    let (decoded, err, _) = decode_stream_traced(stream, cuts);
+    let (decoded, err, _) = decode_driven(stream, cuts, Driver::Framed);
     (decoded, err)
 }
 
-/// As `decode_stream`, also returns the offsets at which the reads of the decoder ended (superset of `cuts` as far
-/// as the stream was read)
-pub fn decode_stream_traced(stream: &[u8], cuts: &[usize]) -> (Vec<Parsed>, Option<String>, Vec<usize>) {
-    let reader = ScriptedReader::new(stream, cuts);
-    let boundaries = reader.boundaries.clone();
-    let (decoded, err) = decode_scripted(reader);
-    let b = boundaries.lock().unwrap().clone();
-    (decoded, err, b)
+/// Feed a segmented stream to the real StreamingDecoder through the given driver
+pub fn decode_driven(stream: &[u8], cuts: &[usize], driver: Driver) -> (Vec<Parsed>, Option<String>, Trace) {
+    let (probe, stats) = Probe::new();
+    let (decoded, err, read_ends) = match driver {
+        Driver::Direct => decode_direct(probe, stream, cuts),
+        Driver::Framed | Driver::ReadAhead(_) => {
+            let reader = ScriptedReader::new(stream, cuts);
+            let boundaries = reader.boundaries.clone();
+            let framed = match driver {
+                Driver::ReadAhead(n) => FramedRead::with_capacity(reader, probe, n as usize),
+                _ => FramedRead::new(reader, probe),
+            };
+            let (decoded, err) = decode_framed(framed);
+            let b = boundaries.lock().unwrap().clone();
+            (decoded, err, b)
+        }
+    };
+    let s = stats.lock().unwrap();
+    (decoded, err, Trace { read_ends, max_buffered: s.max_buffered, decode_calls: s.calls })
 }
 
-fn decode_scripted(reader: ScriptedReader) -> (Vec<Parsed>, Option<String>) {
+fn decode_framed(mut framed: FramedRead<ScriptedReader, Probe>) -> (Vec<Parsed>, Option<String>) {
     let rt = tokio::runtime::Builder::new_current_thread().build().expect("rt");
     rt.block_on(async move {
-        let mut framed = FramedRead::new(reader, StreamingDecoder::new(Default::default()));
         let mut out = vec![];
         let mut err = None;
         while let Some(item) = framed.next().await {
             match item {
-                Ok(m) => out.push(Parsed {
-                    line: m.line.default_print_ctx().to_string(),
-                    headers: m
-                        .headers
-                        .iter()
-                        .map(|(n, v)| (n.as_print_str().to_string(), v.to_string()))
-                        .collect(),
-                    body: m.body.to_vec(),
-                }),
+                Ok(m) => out.push(to_parsed(m)),
                 Err(e) => {
                     err = Some(e.to_string());
                     break;
@@ -191,6 +277,38 @@ fn decode_scripted(reader: ScriptedReader) -> (Vec<Parsed>, Option<String>) {
         }
         (out, err)
     })
+}
+
+fn decode_direct(mut dec: Probe, stream: &[u8], cuts: &[usize]) -> (Vec<Parsed>, Option<String>, Vec<usize>) {
+    let mut bounds: Vec<usize> = cuts.iter().copied().filter(|c| *c > 0 && *c < stream.len()).collect();
+    bounds.sort();
+    bounds.dedup();
+    bounds.push(stream.len());
+    let mut buf = BytesMut::new();
+    let mut out = vec![];
+    let mut read_ends = vec![];
+    let mut prev = 0;
+    for b in bounds {
+        buf.extend_from_slice(&stream[prev..b]);
+        prev = b;
+        read_ends.push(b);
+        loop {
+            match dec.decode(&mut buf) {
+                Ok(Some(m)) => out.push(to_parsed(m)),
+                Ok(None) => break,
+                Err(e) => return (out, Some(e.to_string()), read_ends),
+            }
+        }
+    }
+    // end of stream, as FramedRead reports it
+    loop {
+        match dec.decode_eof(&mut buf) {
+            Ok(Some(m)) => out.push(to_parsed(m)),
+            Ok(None) => break,
+            Err(e) => return (out, Some(e.to_string()), read_ends),
+        }
+    }
+    (out, None, read_ends)
 }
 
 // ---------------------------------------------------------------------------------------------
@@ -207,7 +325,16 @@ pub struct Features {
     pub utf8_head: bool,
     pub keepalive: bool,
     pub big: bool,
+    /// a message whose head has more than MANY_LINES physical lines
+    pub many_lines: bool,
+    /// a decode call found more bytes buffered than the largest message of the statement has (4096 + 65535)
+    pub over_buffered: bool,
 }
+
+/// More head lines than any ordinary message has (the other generators stay below 20)
+pub const MANY_LINES: usize = 32;
+/// Size of the largest message the statement covers: head 4096 + body 65535
+pub const MAX_MESSAGE: usize = 4096 + 65535;
 
 fn cl_line_index(m: &GenMsg) -> Option<usize> {
     m.lines.iter().position(|l| {
@@ -235,6 +362,9 @@ pub struct Layout {
     pub cl_values: Vec<Option<(usize, usize)>>,
     /// runs of keep-alive CRLFs
     pub ka_spans: Vec<(usize, usize)>,
+    /// per message: offset behind the CRLF of every physical line of the head (start line, header lines, folds),
+    /// without the empty line that ends the head
+    pub line_ends: Vec<Vec<usize>>,
 }
 
 impl Layout {
@@ -244,6 +374,7 @@ impl Layout {
         let mut spans = vec![];
         let mut cl_values = vec![];
         let mut ka_spans = vec![];
+        let mut line_ends = vec![];
         for (i, m) in msgs.iter().enumerate() {
             let k = keepalives.get(i).copied().unwrap_or(0) as usize;
             if k > 0 {
@@ -264,6 +395,8 @@ impl Layout {
             }));
             stream.extend_from_slice(&b);
             spans.push((start, head_end, stream.len(), cl_end));
+            let head = &stream[start..head_end - 2];
+            line_ends.push((2..=head.len()).filter(|p| &head[*p - 2..*p] == b"\r\n").map(|p| start + p).collect());
         }
         let tail_k = keepalives.get(msgs.len()).copied().unwrap_or(0) as usize;
         if tail_k > 0 {
@@ -272,7 +405,7 @@ impl Layout {
         for _ in 0..tail_k {
             stream.extend_from_slice(b"\r\n");
         }
-        Layout { stream, spans, cl_values, ka_spans }
+        Layout { stream, spans, cl_values, ka_spans, line_ends }
     }
 
     /// Cut positions that fall between the bytes of one multi-byte character of a message head
@@ -287,6 +420,45 @@ impl Layout {
             }
         }
         v
+    }
+
+    /// Largest number of physical head lines of ONE message that end inside one read (`read_ends` ascending)
+    pub fn max_head_lines_in_one_read(&self, read_ends: &[usize]) -> usize {
+        let mut best = 0;
+        for ends in &self.line_ends {
+            let mut run = 0;
+            let mut cur = usize::MAX;
+            for p in ends {
+                // index of the read that delivered the last byte of this line
+                let r = read_ends.partition_point(|e| *e < *p);
+                if r == cur {
+                    run += 1;
+                } else {
+                    cur = r;
+                    run = 1;
+                }
+                best = best.max(run);
+            }
+        }
+        best
+    }
+
+    /// Largest number of messages that end inside one read
+    pub fn max_message_ends_in_one_read(&self, read_ends: &[usize]) -> usize {
+        let mut best = 0;
+        let mut run = 0;
+        let mut cur = usize::MAX;
+        for (_, _, end, _) in &self.spans {
+            let r = read_ends.partition_point(|e| *e < *end);
+            if r == cur {
+                run += 1;
+            } else {
+                cur = r;
+                run = 1;
+            }
+            best = best.max(run);
+        }
+        best
     }
 
     /// Structurally interesting cut positions: inside every multi-byte character of a head, inside and around the
@@ -316,6 +488,18 @@ impl Layout {
 }
 
 pub fn oracle(msgs: &[GenMsg], keepalives: &[u8], cuts: &[usize], out: &mut CaseOut) {
+    oracle_driven(msgs, keepalives, cuts, Driver::Framed, out)
+}
+
+fn show_cuts(cuts: &[usize]) -> String {
+    if cuts.len() <= 12 {
+        format!("{cuts:?}")
+    } else {
+        format!("{:?}.. ({} cuts)", &cuts[..12], cuts.len())
+    }
+}
+
+pub fn oracle_driven(msgs: &[GenMsg], keepalives: &[u8], cuts: &[usize], driver: Driver, out: &mut CaseOut) {
     let layout = Layout::new(msgs, keepalives);
     let Layout { stream, spans, ka_spans, .. } = &layout;
     let split_positions = layout.split_char_positions();
@@ -341,15 +525,17 @@ pub fn oracle(msgs: &[GenMsg], keepalives: &[u8], cuts: &[usize], out: &mut Case
         }
     }
 
-    let (decoded, err, read_ends) = decode_stream_traced(stream, cuts);
+    let (decoded, err, trace) = decode_driven(stream, cuts, driver);
+    let read_ends = &trace.read_ends;
 
     // classes
+    let most_lines = layout.line_ends.iter().map(|l| l.len()).max().unwrap_or(0);
     let f = Features {
         cut_in_head_after_cl: cuts.iter().any(|c| spans.iter().any(|(_, he, _, cl)| cl.map_or(false, |cl| *c >= cl && *c < *he))),
         cut_in_body: cuts.iter().any(|c| spans.iter().any(|(_, he, e, _)| *c > *he && *c < *e)),
         cut_at_keepalive: cuts.iter().any(|c| ka_spans.iter().any(|(s, e)| *c >= *s && *c <= *e)),
         // by the written segmentation or by the reads the decoder really made
-        cut_in_char: cuts.iter().chain(&read_ends).any(|c| split_positions.binary_search(c).is_ok()),
+        cut_in_char: cuts.iter().chain(read_ends).any(|c| split_positions.binary_search(c).is_ok()),
         decoy: msgs.iter().any(|m| {
             m.lines.iter().any(|l| {
                 let n = l.split(':').next().unwrap_or("").trim().to_ascii_lowercase();
@@ -361,6 +547,8 @@ pub fn oracle(msgs: &[GenMsg], keepalives: &[u8], cuts: &[usize], out: &mut Case
         utf8_head: msgs.iter().any(head_is_non_ascii),
         keepalive: keepalives.iter().any(|k| *k > 0),
         big: stream.len() > 4096,
+        many_lines: most_lines > MANY_LINES,
+        over_buffered: trace.max_buffered > MAX_MESSAGE,
     };
     if f.cut_in_char {
         out.class("cut-inside-multibyte-char-of-head");
@@ -408,8 +596,54 @@ pub fn oracle(msgs: &[GenMsg], keepalives: &[u8], cuts: &[usize], out: &mut Case
     if msgs.iter().skip(1).any(|m| cl_line_index(m).is_none()) && msgs.iter().any(|m| !m.body.is_empty()) {
         out.class("message without Content-Length behind a message with body");
     }
-    if f.cut_in_head_after_cl || f.cut_in_body || f.cut_at_keepalive || f.cut_in_char || f.decoy || f.odd_spelling || f.zero_padded {
-        out.nontrivial(&(msgs, keepalives, cuts));
+    // number of head lines, and how many of them one decode call gets to see at once
+    for (limit, label) in [(MANY_LINES, "head with >32 lines"), (128, "head with >128 lines"), (512, "head with >512 lines")] {
+        if most_lines > limit {
+            out.class(label);
+        }
+    }
+    let lines_at_once = layout.max_head_lines_in_one_read(read_ends);
+    for (limit, label) in [(MANY_LINES, "one read holds >32 lines of a head"), (128, "one read holds >128 lines of a head"), (512, "one read holds >512 lines of a head")] {
+        if lines_at_once > limit {
+            out.class(label);
+        }
+    }
+    if most_lines > MANY_LINES && lines_at_once < most_lines {
+        out.class("head with >32 lines spread over several reads");
+    }
+    if msgs.iter().zip(&layout.line_ends).any(|(m, l)| l.len() > MANY_LINES && cl_line_index(m).map_or(false, |i| i > MANY_LINES)) {
+        out.class("Content-Length behind >32 header lines");
+    }
+    // how much is buffered when decode is called
+    out.class(match driver {
+        Driver::Framed => "driver: FramedRead::new",
+        Driver::ReadAhead(_) => "driver: FramedRead::with_capacity (read-ahead)",
+        Driver::Direct => "driver: Decoder contract (segment appended whole)",
+    });
+    if stream.len() > MAX_MESSAGE {
+        out.class("stream larger than the largest message (>69631)");
+    }
+    if f.over_buffered {
+        out.class("decode call with >69631 bytes buffered");
+    }
+    if trace.max_buffered > 2 * MAX_MESSAGE {
+        out.class("decode call with >139262 bytes buffered");
+    }
+    let msgs_at_once = layout.max_message_ends_in_one_read(read_ends);
+    if msgs_at_once > 1 {
+        out.class("one read holds the ends of several messages");
+    }
+    if msgs_at_once > 8 {
+        out.class("one read holds the ends of >8 messages");
+    }
+    if msgs.iter().any(|m| m.head_len() == 4096) {
+        out.class("head of exactly 4096 bytes");
+    }
+    if msgs.iter().any(|m| m.body.len() == 65535) {
+        out.class("body of exactly 65535 bytes");
+    }
+    if f.cut_in_head_after_cl || f.cut_in_body || f.cut_at_keepalive || f.cut_in_char || f.decoy || f.odd_spelling || f.zero_padded || f.many_lines || f.over_buffered || msgs_at_once > 1 {
+        out.nontrivial(&(msgs, keepalives, cuts, driver));
     }
 
     // verdict
@@ -422,25 +656,28 @@ pub fn oracle(msgs: &[GenMsg], keepalives: &[u8], cuts: &[usize], out: &mut Case
         if f.zero_padded { tags.push("zero-padded"); }
         if f.utf8_head { tags.push("utf8-head"); }
         if f.cut_in_char { tags.push("cut-in-char"); }
+        if f.many_lines { tags.push("many-lines"); }
+        if f.over_buffered { tags.push("buffered>max-message"); }
         if tags.is_empty() { tags.push("plain"); }
         tags.join("+")
     };
+    let how = format!("driver {driver:?}, cuts {}, stream {} bytes, at most {} bytes buffered at a decode call, at most {lines_at_once} lines of one head in one read", show_cuts(cuts), stream.len(), trace.max_buffered);
     if let Some(e) = &err {
         out.fail(
             format!("c03.decode/error[{}]", ctx()),
-            format!("stream decoder failed with `{e}` after {} of {} messages (cuts {:?}, stream {} bytes)", decoded.len(), msgs.len(), cuts, stream.len()),
+            format!("stream decoder failed with `{e}` after {} of {} messages ({how})", decoded.len(), msgs.len()),
         );
     }
     if decoded.len() < reference.len() && err.is_none() {
         out.fail(
             format!("c03.decode/missing[{}]", ctx()),
-            format!("{} messages written, {} decoded (cuts {:?})", reference.len(), decoded.len(), cuts),
+            format!("{} messages written, {} decoded ({how})", reference.len(), decoded.len()),
         );
     }
     if decoded.len() > reference.len() {
         out.fail(
             format!("c03.decode/extra[{}]", ctx()),
-            format!("{} messages written, {} decoded (cuts {:?})", reference.len(), decoded.len(), cuts),
+            format!("{} messages written, {} decoded ({how})", reference.len(), decoded.len()),
         );
     }
     for (i, (d, r)) in decoded.iter().zip(&reference).enumerate() {
@@ -448,12 +685,16 @@ pub fn oracle(msgs: &[GenMsg], keepalives: &[u8], cuts: &[usize], out: &mut Case
             out.fail(format!("c03.differs/start-line[{}]", ctx()), format!("message {i}: {:?} vs datagram {:?}", d.line, r.line));
         }
         if d.headers != r.headers {
-            out.fail(format!("c03.differs/headers[{}]", ctx()), format!("message {i}: stream {:?} vs datagram {:?}", d.headers, r.headers));
+            let at = d.headers.iter().zip(&r.headers).position(|(a, b)| a != b).unwrap_or(d.headers.len().min(r.headers.len()));
+            out.fail(
+                format!("c03.differs/headers[{}]", ctx()),
+                format!("message {i}: stream {} headers vs datagram {}, first difference at header {at}: {:?} vs {:?} ({how})", d.headers.len(), r.headers.len(), d.headers.get(at), r.headers.get(at)),
+            );
         }
         if d.body != r.body {
             out.fail(
                 format!("c03.differs/body[{}]", ctx()),
-                format!("message {i}: stream body {} bytes vs datagram {} bytes (cuts {:?})", d.body.len(), r.body.len(), cuts),
+                format!("message {i}: stream body {} bytes vs datagram {} bytes ({how})", d.body.len(), r.body.len()),
             );
         }
     }
@@ -614,6 +855,8 @@ pub struct Case {
     pub msgs: Vec<GenMsg>,
     pub keepalives: Vec<u8>,
     pub cuts: Vec<usize>,
+    #[serde(default)]
+    pub driver: Driver,
 }
 
 const STARTS: &[&str] = &[
@@ -690,10 +933,65 @@ fn body_strategy() -> BoxedStrategy<Vec<u8>> {
     .boxed()
 }
 
+/// Body of the given length with bytes of every value, CRLFCRLF runs and header-like text
+pub fn pattern_body(len: usize, seed: u8) -> Vec<u8> {
+    let mut b: Vec<u8> = (0..len).map(|i| (i as u8).wrapping_mul(31).wrapping_add(seed)).collect();
+    let text: &[u8] = b"\r\n\r\nContent-Length: 7\r\nl: 1\r\n\r\nOPTIONS sip:q SIP/2.0\r\n\r\n";
+    let mut at = 10;
+    while at + text.len() <= len {
+        b[at..at + text.len()].copy_from_slice(text);
+        at += 1 + 7 * text.len() + 1000 * (seed as usize % 5);
+    }
+    b
+}
+
+/// Bodies for long pipelines: mostly large
+fn big_body_strategy() -> BoxedStrategy<Vec<u8>> {
+    prop_oneof![
+        4 => any::<u8>().prop_map(|s| pattern_body(65_535, s)),
+        3 => (any::<u8>(), 0usize..6).prop_map(|(s, k)| pattern_body([65_534usize, 40_000, 30_000, 20_000, 8_192, 4_097][k], s)),
+        1 => (any::<u8>(), 4_097usize..65_535).prop_map(|(s, n)| pattern_body(n, s)),
+        1 => Just(vec![]),
+        1 => (any::<u8>(), 1usize..200).prop_map(|(s, n)| pattern_body(n, s)),
+    ]
+    .boxed()
+}
+
+/// Short header lines, to give a head many lines within its 4096 bytes
+pub fn short_line(shape: u8, i: usize) -> String {
+    match shape % 4 {
+        0 => format!("X-{i}: {}", i % 10),
+        // the shortest header line there is (names that are no compact form of anything)
+        1 => format!("{}:", ["g", "h", "n", "p", "q", "w", "z"][i % 7]),
+        // folded: two physical lines per header
+        2 => format!("X-{i}: a\r\n b{}", i % 10),
+        // ordinary headers, repeated (a long Via / Record-Route / Accept list)
+        _ => ["Via: SIP/2.0/TCP 192.0.2.4;branch=z9hG4bK7", "Record-Route: <sip:p1.example.org;lr>", "Accept: text/plain", "Route: <sip:p2.example.org;lr>", "Allow: INVITE", "k: timer"][i % 6].to_string(),
+    }
+}
+
 fn msg_strategy() -> BoxedStrategy<GenMsg> {
+    msg_strategy_with(body_strategy())
+}
+
+fn msg_strategy_with(body: BoxedStrategy<Vec<u8>>) -> BoxedStrategy<GenMsg> {
     (
         any::<u16>(),
-        prop::collection::vec(any::<u16>(), 2..11),
+        (
+            prop::collection::vec(any::<u16>(), 2..11),
+            // number of short header lines added to the head (as far as the 4096 bytes allow), their shape, where
+            prop_oneof![
+                30 => Just(0usize),
+                2 => 1usize..33,
+                2 => 33usize..129,
+                1 => 120usize..140,
+                2 => 129usize..420,
+                1 => 250usize..262,
+                1 => 400usize..1000,
+            ],
+            0u8..4,
+            any::<u16>(),
+        ),
         prop::collection::vec(any::<u16>(), 0..3),
         // non-ASCII header lines: none in half of the messages
         prop_oneof![5 => Just(vec![]), 5 => prop::collection::vec(any::<u16>(), 1..4)],
@@ -707,10 +1005,10 @@ fn msg_strategy() -> BoxedStrategy<GenMsg> {
             // bodies) / many (6 .. 34 digits, beyond the digits of u16, u32, u64 and usize)
             prop_oneof![5 => Just(0usize), 2 => 1usize..5, 3 => 5usize..30],
         ),
-        body_strategy(),
+        body,
         prop_oneof![9 => Just(0usize), 1 => 3000usize..3800],
     )
-        .prop_map(|(ssel, fill, decoys, utf8, pos, (nsel, ws_before, ws_after, fold, zeros), body, pad)| {
+        .prop_map(|(ssel, (fill, many, shape, many_at), decoys, utf8, pos, (nsel, ws_before, ws_after, fold, zeros), body, pad)| {
             let mut lines: Vec<String> = fill.iter().map(|f| FILLER[pick_idx(*f, FILLER.len())].to_string()).collect();
             for d in decoys {
                 let at = pick_idx(d, lines.len() + 1);
@@ -723,6 +1021,23 @@ fn msg_strategy() -> BoxedStrategy<GenMsg> {
             if pad > 0 {
                 // pad the head towards the 4096 limit with one long header
                 lines.push(format!("X-Pad: {}", "p".repeat(pad)));
+            }
+            let start = STARTS[pick_idx(ssel, STARTS.len())];
+            if many > 0 {
+                // a block of short lines, as many of the wanted number as fit into a head of 4096 bytes together
+                // with the longest Content-Length line generated below (80 bytes)
+                let mut used = start.len() + 2 + lines.iter().map(|l| l.len() + 2).sum::<usize>() + 2 + 80;
+                let mut block = vec![];
+                for i in 0..many {
+                    let l = short_line(shape, i);
+                    if used + l.len() + 2 > 4096 {
+                        break;
+                    }
+                    used += l.len() + 2;
+                    block.push(l);
+                }
+                let at = pick_idx(many_at, lines.len() + 1);
+                lines.splice(at..at, block);
             }
             let name = CL_NAMES[pick_idx(nsel, CL_NAMES.len())];
             // HCOLON = *( SP / HTAB ) ":" SWS,  SWS = [ [*WSP CRLF] 1*WSP ] — blanks and tabs in any mix (chosen by
@@ -741,11 +1056,7 @@ fn msg_strategy() -> BoxedStrategy<GenMsg> {
             if !(body.is_empty() && nsel % 4 == 3) {
                 lines.insert(at, cl);
             }
-            let mut m = GenMsg {
-                start: STARTS[pick_idx(ssel, STARTS.len())].to_string(),
-                lines,
-                body,
-            };
+            let mut m = GenMsg { start: start.to_string(), lines, body };
             // the statement covers heads of at most 4096 bytes
             while m.head_len() > 4096 {
                 let i = m.lines.iter().position(|l| l.starts_with("X-Pad")).unwrap_or(0);
@@ -761,12 +1072,60 @@ fn msg_strategy() -> BoxedStrategy<GenMsg> {
         .boxed()
 }
 
-#[derive(Clone, Debug)]
-enum CutSel {
+/// A segmentation described by its shape (resolved against the layout of a concrete stream)
+#[derive(Serialize, Deserialize, Clone, Debug, Hash, PartialEq, Eq)]
+pub enum Seg {
     /// the whole stream in one write
     Whole,
-    /// 1-byte dribble (strided above 3000 bytes)
+    /// 1-byte dribble (strided so that there are at most ~1500 cuts)
     Dribble,
+    /// equal segments of n bytes
+    Every(u32),
+    /// one segment per message (cut behind every message)
+    PerMessage,
+    /// one segment per k physical head lines of a message (cut behind every k-th line end of each head)
+    LinesPer(u16),
+    /// one cut in the middle of every head
+    MidHeads,
+    /// one cut behind the first line of every head (the rest of the head comes in one piece)
+    AfterFirstLine,
+    /// one cut in front of the last header line of every head
+    BeforeLastLine,
+    /// a single cut, in the middle of the first message
+    MidFirst,
+    /// a single cut, in the middle of the last message
+    MidLast,
+}
+
+impl Seg {
+    pub fn cuts(&self, layout: &Layout) -> Vec<usize> {
+        let total = layout.stream.len();
+        let mut cuts: Vec<usize> = match self {
+            Seg::Whole => vec![],
+            Seg::Dribble => (1..total).step_by(total / 1500 + 1).collect(),
+            Seg::Every(n) => (1..total).filter(|p| p % (*n).max(1) as usize == 0).collect(),
+            Seg::PerMessage => layout.spans.iter().map(|(_, _, e, _)| *e).collect(),
+            Seg::LinesPer(k) => layout.line_ends.iter().flat_map(|l| l.iter().skip((*k).max(1) as usize - 1).step_by((*k).max(1) as usize).copied()).collect(),
+            Seg::MidHeads => layout.spans.iter().map(|(s, he, _, _)| (s + he) / 2).collect(),
+            Seg::AfterFirstLine => layout.line_ends.iter().filter_map(|l| l.first().copied()).collect(),
+            Seg::BeforeLastLine => layout.line_ends.iter().filter_map(|l| l.len().checked_sub(2).map(|i| l[i])).collect(),
+            Seg::MidFirst => layout.spans.first().map(|(s, _, e, _)| (s + e) / 2).into_iter().collect(),
+            Seg::MidLast => layout.spans.last().map(|(s, _, e, _)| (s + e) / 2).into_iter().collect(),
+        };
+        cuts.retain(|c| *c > 0 && *c < total);
+        cuts.sort();
+        cuts.dedup();
+        cuts
+    }
+}
+
+const SEG_SIZES: &[u32] = &[2, 3, 7, 64, 100, 536, 1000, 1460, 4096, 8192, 16384, 65536, 100_000];
+const SEG_LINES: &[u16] = &[1, 2, 3, 10, 31, 50, 64, 100, 127, 128, 129, 130, 200, 256, 300, 600];
+
+#[derive(Clone, Debug)]
+enum CutSel {
+    /// a `Seg` shape, plus some cuts anywhere
+    Shape(Seg, Vec<u16>),
     /// k cuts anywhere
     Anywhere(Vec<u16>),
     /// k cuts at `Layout::landmarks` (the first one inside a multi-byte character of a head when there is one),
@@ -774,34 +1133,67 @@ enum CutSel {
     Landmarks(Vec<u16>, Vec<u16>),
 }
 
+fn seg_strategy() -> BoxedStrategy<Seg> {
+    prop_oneof![
+        2 => Just(Seg::PerMessage),
+        3 => any::<u16>().prop_map(|s| Seg::Every(SEG_SIZES[pick_idx(s, SEG_SIZES.len())])),
+        3 => any::<u16>().prop_map(|s| Seg::LinesPer(SEG_LINES[pick_idx(s, SEG_LINES.len())])),
+        1 => Just(Seg::MidHeads),
+        1 => Just(Seg::AfterFirstLine),
+        1 => Just(Seg::BeforeLastLine),
+        1 => Just(Seg::MidFirst),
+        1 => Just(Seg::MidLast),
+    ]
+    .boxed()
+}
+
+fn driver_strategy() -> BoxedStrategy<Driver> {
+    prop_oneof![
+        5 => Just(Driver::Framed),
+        3 => Just(Driver::Direct),
+        2 => (0usize..4).prop_map(|k| Driver::ReadAhead([16_384u32, 65_536, 262_144, 1 << 20][k])),
+    ]
+    .boxed()
+}
+
 pub fn strategy() -> BoxedStrategy<Case> {
     (
-        prop::collection::vec(msg_strategy(), 1..5),
-        prop::collection::vec(prop_oneof![4 => Just(0u8), 2 => Just(1u8), 2 => Just(2u8), 1 => Just(3u8)], 6),
         prop_oneof![
-            2 => Just(CutSel::Whole),
-            1 => Just(CutSel::Dribble),
-            5 => prop::collection::vec(any::<u16>(), 1..17).prop_map(CutSel::Anywhere),
-            3 => (prop::collection::vec(any::<u16>(), 1..7), prop::collection::vec(any::<u16>(), 0..4)).prop_map(|(a, b)| CutSel::Landmarks(a, b)),
+            // ordinary traffic
+            19 => prop::collection::vec(msg_strategy(), 1..5),
+            // pipelines of mostly large messages: far more than one maximum-size message on the connection
+            1 => prop::collection::vec(msg_strategy_with(big_body_strategy()), 2..6),
         ],
+        prop::collection::vec(prop_oneof![4 => Just(0u8), 2 => Just(1u8), 2 => Just(2u8), 1 => Just(3u8)], 8),
+        prop_oneof![
+            4 => Just(CutSel::Shape(Seg::Whole, vec![])),
+            2 => Just(CutSel::Shape(Seg::Dribble, vec![])),
+            6 => (seg_strategy(), prop::collection::vec(any::<u16>(), 0..3)).prop_map(|(s, v)| CutSel::Shape(s, v)),
+            8 => prop::collection::vec(any::<u16>(), 1..17).prop_map(CutSel::Anywhere),
+            6 => (prop::collection::vec(any::<u16>(), 1..7), prop::collection::vec(any::<u16>(), 0..4)).prop_map(|(a, b)| CutSel::Landmarks(a, b)),
+        ],
+        driver_strategy(),
     )
-        .prop_map(|(msgs, ka, cutsel)| {
+        .prop_map(|(msgs, ka, cutsel, driver)| {
             let mut keepalives = ka;
             keepalives.truncate(msgs.len() + 1);
-            let total: usize = msgs.iter().map(|m| m.bytes().len()).sum::<usize>() + keepalives.iter().map(|k| 2 * *k as usize).sum::<usize>();
+            let layout = Layout::new(&msgs, &keepalives);
+            let total = layout.stream.len();
             let anywhere = |v: &[u16]| -> Vec<usize> { v.iter().map(|s| 1 + pick_idx(*s, total.saturating_sub(1).max(1))).collect() };
             let mut cuts = match cutsel {
-                CutSel::Whole => vec![],
-                CutSel::Dribble => {
-                    if total <= 3000 {
-                        (1..total).collect()
-                    } else {
-                        (1..total).step_by(total / 1500 + 1).collect()
-                    }
+                CutSel::Shape(Seg::Dribble, _) if total <= 3000 => (1..total).collect(),
+                CutSel::Shape(seg, extra) => {
+                    // at most ~2000 segments (as the strided dribble): the next larger segment size
+                    let seg = match seg {
+                        Seg::Every(n) if total / n as usize > 2000 => Seg::Every(*SEG_SIZES.iter().find(|s| total / **s as usize <= 2000).unwrap_or(&100_000)),
+                        s => s,
+                    };
+                    let mut c = seg.cuts(&layout);
+                    c.extend(anywhere(&extra));
+                    c
                 }
                 CutSel::Anywhere(v) => anywhere(&v),
                 CutSel::Landmarks(at, extra) => {
-                    let layout = Layout::new(&msgs, &keepalives);
                     let marks = layout.landmarks();
                     let in_char = layout.split_char_positions();
                     let mut c = anywhere(&extra);
@@ -817,13 +1209,225 @@ pub fn strategy() -> BoxedStrategy<Case> {
             };
             cuts.sort();
             cuts.dedup();
-            Case { msgs, keepalives, cuts }
+            Case { msgs, keepalives, cuts, driver }
         })
         .boxed()
 }
 
 pub fn check(case: &Case, out: &mut CaseOut) {
-    oracle(&case.msgs, &case.keepalives, &case.cuts, out);
+    oracle_driven(&case.msgs, &case.keepalives, &case.cuts, case.driver, out);
+}
+
+// ---------------------------------------------------------------------------------------------
+// number of head lines x lines per segment, enumerated
+
+/// One or two messages whose head has `n` short header lines of one shape (as many as a head of 4096 bytes holds)
+#[derive(Serialize, Deserialize, Clone, Debug, Hash)]
+pub struct LinesCase {
+    pub n: u16,
+    /// shape of the short lines, see `short_line`
+    pub shape: u8,
+    /// Content-Length line: 0 first header, 1 in the middle of the short lines, 2 last header, 3 none (no body)
+    pub cl_pos: u8,
+    /// a second message of the same kind (n - 3 lines) behind two keep-alive CRLFs
+    pub pair: bool,
+    pub seg: Seg,
+    pub driver: Driver,
+}
+
+fn lines_msg(n: usize, shape: u8, cl_pos: u8, k: usize) -> GenMsg {
+    let base = [
+        format!("Via: SIP/2.0/TCP 192.0.2.4;branch=z9hG4bKl{k}"),
+        "From: <sip:a@example.org>;tag=1".to_string(),
+        "To: <sip:b@example.org>".to_string(),
+        "Call-ID: c03-lines@x".to_string(),
+        format!("CSeq: {} OPTIONS", k + 1),
+    ];
+    let body: &[u8] = if cl_pos == 3 { b"" } else { b"ab\r\n" };
+    let cl = if k % 2 == 0 { format!("Content-Length: {}", body.len()) } else { format!("l: {}", body.len()) };
+    let start = "OPTIONS sip:b@example.org SIP/2.0";
+    let mut used = start.len() + 2 + base.iter().map(|l| l.len() + 2).sum::<usize>() + cl.len() + 2 + 2;
+    let mut block = vec![];
+    for i in 0..n {
+        let l = short_line(shape, i);
+        if used + l.len() + 2 > 4096 {
+            break;
+        }
+        used += l.len() + 2;
+        block.push(l);
+    }
+    let mut lines = vec![];
+    if cl_pos == 0 {
+        lines.push(cl.clone());
+    }
+    lines.extend(base);
+    let mid = block.len() / 2;
+    for (i, l) in block.into_iter().enumerate() {
+        if cl_pos == 1 && i == mid {
+            lines.push(cl.clone());
+        }
+        lines.push(l);
+    }
+    if (cl_pos == 1 && mid == 0 && !lines.contains(&cl)) || cl_pos == 2 {
+        lines.push(cl);
+    }
+    GenMsg { start: start.to_string(), lines, body: body.to_vec() }
+}
+
+pub fn lines_cases(tier: Tier) -> Vec<LinesCase> {
+    // around every power of two up to the most lines a head of 4096 bytes can have (shape 1: 4 bytes per line)
+    let mut counts: Vec<u16> = vec![0, 1, 7, 100, 200, 300, 400, 700, 960];
+    for p in [16u16, 32, 64, 128, 256, 512] {
+        counts.extend([p - 1, p, p + 1]);
+    }
+    if tier == Tier::Thorough {
+        counts.extend((2..400).step_by(3));
+        counts.extend((400..1000).step_by(20));
+    }
+    counts.sort();
+    counts.dedup();
+    let mut segs = vec![Seg::Whole, Seg::PerMessage, Seg::MidHeads, Seg::AfterFirstLine, Seg::BeforeLastLine, Seg::Every(64), Seg::Every(1000), Seg::Dribble];
+    for k in [1u16, 2, 50, 100, 127, 128, 129, 200, 255, 256, 257, 300, 600] {
+        segs.push(Seg::LinesPer(k));
+    }
+    if tier == Tier::Thorough {
+        segs.extend([Seg::Every(7), Seg::Every(256), Seg::Every(536), Seg::Every(1460), Seg::Every(4096), Seg::MidFirst, Seg::MidLast]);
+        segs.extend((3u16..40).map(Seg::LinesPer));
+    }
+    let mut out = vec![];
+    for &n in &counts {
+        for shape in 0u8..4 {
+            // what the shape cannot reach within 4096 bytes is the same message as a smaller n
+            let reach = [400u16, 1000, 200, 130][shape as usize];
+            if n > reach {
+                continue;
+            }
+            for cl_pos in 0u8..4 {
+                for pair in [false, true] {
+                    for seg in &segs {
+                        if !pair && *seg == Seg::PerMessage {
+                            continue;
+                        }
+                        for driver in [Driver::Framed, Driver::Direct] {
+                            // thin the product in quick: every (n, shape, seg, driver) keeps two Content-Length
+                            // positions, single and pair
+                            if tier == Tier::Quick && (cl_pos as usize + pair as usize + n as usize) % 2 == 1 {
+                                continue;
+                            }
+                            out.push(LinesCase { n, shape, cl_pos, pair, seg: seg.clone(), driver });
+                        }
+                    }
+                }
+            }
+        }
+    }
+    out
+}
+
+pub fn check_lines(case: &LinesCase, out: &mut CaseOut) {
+    let mut msgs = vec![lines_msg(case.n as usize, case.shape, case.cl_pos, 0)];
+    let mut keepalives = vec![0u8];
+    if case.pair {
+        msgs.push(lines_msg((case.n as usize).saturating_sub(3), case.shape, case.cl_pos, 1));
+        keepalives.push(2);
+    }
+    let cuts = case.seg.cuts(&Layout::new(&msgs, &keepalives));
+    oracle_driven(&msgs, &keepalives, &cuts, case.driver, out);
+}
+
+// ---------------------------------------------------------------------------------------------
+// pipelines larger than one maximum-size message x how much of them is buffered at once, enumerated
+
+#[derive(Serialize, Deserialize, Clone, Debug, Hash)]
+pub struct PipeCase {
+    /// body length of each message
+    pub bodies: Vec<u32>,
+    /// 0: ordinary heads, 1: every head padded to exactly 4096 bytes, 2: every head with 300 short lines
+    pub head: u8,
+    /// keep-alive CRLFs in front of the first message / between messages
+    pub ka_front: u8,
+    pub ka_between: u8,
+    pub seg: Seg,
+    pub driver: Driver,
+}
+
+fn pipe_msg(i: usize, body_len: usize, head: u8) -> GenMsg {
+    let cl = if i % 2 == 0 { format!("l: {body_len}") } else { format!("Content-Length: {body_len}") };
+    let mut lines = vec![
+        format!("Via: SIP/2.0/TCP 192.0.2.4;branch=z9hG4bKp{i}"),
+        "From: <sip:a@example.org>;tag=1".to_string(),
+        "To: <sip:b@example.org>".to_string(),
+        "Call-ID: c03-pipe@x".to_string(),
+        format!("CSeq: {} MESSAGE", i + 1),
+        "Max-Forwards: 70".to_string(),
+    ];
+    lines.insert([1, 6, 3][i % 3], cl);
+    if head == 2 {
+        lines.extend((0..300).map(|k| short_line(0, k)));
+    }
+    let mut m = GenMsg { start: "MESSAGE sip:b@example.org SIP/2.0".to_string(), lines, body: pattern_body(body_len, i as u8) };
+    if head == 1 {
+        let pad = 4096 - m.head_len() - "X-Pad: ".len() - 2;
+        m.lines.insert(2, format!("X-Pad: {}", "p".repeat(pad)));
+    }
+    m
+}
+
+pub fn pipe_cases(tier: Tier) -> Vec<PipeCase> {
+    const M: u32 = 65_535;
+    let mut profiles: Vec<Vec<u32>> = vec![
+        vec![M],
+        vec![M, M],
+        vec![M, M, M],
+        vec![M; 6],
+        vec![30_000, 100, 30_000, 0, 20_000],
+        vec![M, 0, M],
+        vec![0, M, 0, M],
+        vec![30_000; 3],
+        vec![30_000; 5],
+        vec![1_000, 4_000, 16_000, 64_000],
+        vec![64_000, 16_000, 4_000, 1_000],
+        vec![4_000; 20],
+        // many small messages in the buffer at once
+        vec![0; 40],
+        vec![10; 200],
+    ];
+    if tier == Tier::Thorough {
+        profiles.extend([vec![M; 4], vec![M; 10], vec![M - 1, M - 1], vec![35_000, 35_000], vec![34_000, 34_000], vec![20_000; 8], vec![8_192; 30], vec![1; 600], vec![M, 1, 1, 1, 1, M]]);
+    }
+    let mut segs = vec![Seg::Whole, Seg::PerMessage, Seg::Every(1000), Seg::Every(8192), Seg::Every(65_536), Seg::Every(100_000), Seg::MidFirst, Seg::MidLast];
+    if tier == Tier::Thorough {
+        segs.extend([Seg::Every(1460), Seg::Every(4096), Seg::Every(16_384), Seg::Every(69_631), Seg::Every(69_632), Seg::Every(131_072), Seg::Every(262_144), Seg::MidHeads, Seg::Dribble]);
+    }
+    let mut out = vec![];
+    for bodies in &profiles {
+        for head in 0u8..3 {
+            let approx: usize = bodies.iter().map(|b| *b as usize + [250usize, 4096, 3200][head as usize]).sum();
+            // keep a case below ~0.7 MB; many-line heads with a few profiles only
+            if approx > 700_000 || (head == 2 && bodies.len() > 5) {
+                continue;
+            }
+            for (ka_front, ka_between) in [(0u8, 0u8), (0, 2), (3, 1)] {
+                for seg in &segs {
+                    for driver in [Driver::Framed, Driver::ReadAhead(1 << 20), Driver::Direct] {
+                        if tier == Tier::Quick && head == 2 && (ka_between == 2 || driver == Driver::Framed) {
+                            continue;
+                        }
+                        out.push(PipeCase { bodies: bodies.clone(), head, ka_front, ka_between, seg: seg.clone(), driver });
+                    }
+                }
+            }
+        }
+    }
+    out
+}
+
+pub fn check_pipe(case: &PipeCase, out: &mut CaseOut) {
+    let msgs: Vec<GenMsg> = case.bodies.iter().enumerate().map(|(i, b)| pipe_msg(i, (*b).min(65_535) as usize, case.head)).collect();
+    let mut keepalives = vec![case.ka_between; msgs.len()];
+    keepalives[0] = case.ka_front;
+    let cuts = case.seg.cuts(&Layout::new(&msgs, &keepalives));
+    oracle_driven(&msgs, &keepalives, &cuts, case.driver, out);
 }
 
 fn seed_corpus_stream(dir: &std::path::Path) {
@@ -859,18 +1463,22 @@ pub fn property() -> Property {
     Property {
         fuzz: vec![FuzzStage { target: "sip_stream", runs: 800_000, max_len: 9000, seed_corpus: seed_corpus_stream }],
         id: "C03",
-        rule: "a case = 1..4 SIP messages (heads <= 4096 B, bodies <= 65535 B; Content-Length spelled in any case / compact l,L / blanks and tabs around the colon / folded (also with blanks before and behind the fold) / any position / value with 0..29 leading zeros (1*DIGIT: up to 34 digits, more than u16, u32, u64 hold), or absent on a bodiless message; decoy headers; non-ASCII UTF-8 (2-, 3-, 4-byte characters) in display names, TEXT-UTF8 header values, comments and reason phrases in half of the messages; bodies containing CRLFCRLF and fake messages) + 0..3 CRLF keep-alives before/between/after + a segmentation; fed through the real tokio_util FramedRead<_, StreamingDecoder>; oracle = each message alone through the datagram parser plus the generator's own record. cuts1: EVERY 1-cut of 39 corpus messages and of 2-message pipelines; cuts2: every 2-cut (thorough; strided in quick); random: generated sequences with k cuts anywhere, k cuts at landmarks (inside a multi-byte character of a head, inside / around the Content-Length value and line, around head end, message end and keep-alive runs), 1-byte dribble, single write. Non-trivial = a cut inside a head after the Content-Length line, inside a body, at a keep-alive or between the bytes of a multi-byte character of a head, or a decoy header, or a non-canonical Content-Length spelling (name, blanks, fold, leading zeros); distinct by (messages, keep-alives, cuts).",
+        rule: "a case = 1..4 SIP messages (5%: a pipeline of 2..5 messages with mostly 20000..65535 byte bodies, up to ~0.33 MB) (heads <= 4096 B, bodies <= 65535 B; Content-Length spelled in any case / compact l,L / blanks and tabs around the colon / folded (also with blanks before and behind the fold) / any position / value with 0..29 leading zeros (1*DIGIT: up to 34 digits, more than u16, u32, u64 hold), or absent on a bodiless message; decoy headers; non-ASCII UTF-8 (2-, 3-, 4-byte characters) in display names, TEXT-UTF8 header values, comments and reason phrases in half of the messages; in 23% of the messages a block of 1..999 short header lines (X-n: v / 4-byte `q:` / folded / repeated ordinary headers; as many as fit into 4096 bytes) so that heads have up to ~1000 lines; bodies containing CRLFCRLF and fake messages) + 0..3 CRLF keep-alives before/between/after + a segmentation + a driver (50% tokio_util FramedRead::new as in ezk's receive task, 20% FramedRead::with_capacity(16 KiB..1 MiB) = read-ahead, 30% the Decoder contract directly: each segment appended whole to the BytesMut, decode until None, decode_eof at the end); the decoder is the real StreamingDecoder (behind a transparent probe that records the buffered byte count per call); oracle = each message alone through the datagram parser plus the generator's own record. cuts1: EVERY 1-cut of 39 corpus messages and of 2-message pipelines; cuts2: every 2-cut (thorough; strided in quick); lines (enumerated): head line count n (0..960: around every power of two 16..512 and more) x line shape (4) x Content-Length first / amid / last / absent x single message or pair x segmentation (whole, per message, mid-head, behind the first line, before the last line, 64 / 1000 byte segments, dribble, one segment per k head lines for k in 1..600 around 128 and 256) x driver (FramedRead::new, direct); pipes (enumerated): 14 body-size profiles (1..6 maximum bodies, 30000+100+30000+0+20000, rising / falling sizes, 20 x 4000, 40 and 200 small messages) x heads (ordinary, exactly 4096 bytes, 300 lines) x keep-alives (none, 2 between, 3 in front + 1 between) x segmentation (whole, per message, 1000 / 8192 / 65536 / 100000 byte segments, one cut in the first / last message) x driver (FramedRead::new, read-ahead 1 MiB, direct); random: generated sequences with k cuts anywhere, k cuts at landmarks (inside a multi-byte character of a head, inside / around the Content-Length value and line, around head end, message end and keep-alive runs), 1-byte dribble, single write, equal segments of 2..100000 bytes, per message, per k head lines (k 1..600), mid-head, behind first / before last head line, one cut in the first / last message. Non-trivial = a cut inside a head after the Content-Length line, inside a body, at a keep-alive or between the bytes of a multi-byte character of a head, or a decoy header, or a non-canonical Content-Length spelling (name, blanks, fold, leading zeros), or a head with more than 32 lines, or a decode call that found more than 4096+65535 bytes buffered, or a read that holds the ends of several messages; distinct by (messages, keep-alives, cuts, driver).",
         assumptions: vec![
             "line ends are CRLF (LF-only heads are outside the generated domain)",
             "heads are valid UTF-8 (the datagram parser named as reference rejects anything else); Content-Length values are 1*DIGIT without sign or trailing blanks",
             "the datagram parser (reference named by the statement) is taken as given; its body and header count are cross-checked against the generator's record",
             "the class / signature tag cut-in-char also counts the read boundaries the decoder really saw (a segment larger than the free read buffer is handed out in several reads)",
+            "`any segmentation` is taken at the decoder's interface: how many bytes are in the buffer when decode is called is decided by the segmentation AND by the framing driver's read-ahead; besides FramedRead::new (today's wiring, which never buffers more than the message awaited) the same StreamingDecoder is driven with a large read-ahead and by the plain tokio_util Decoder contract (decode may be called with any amount of buffered data). The statement bounds head and body of each message, not the number of header lines and not the length of the sequence",
+            "the signature tags many-lines (a head with more than 32 physical lines) and buffered>max-message (a decode call found more than 4096+65535 bytes buffered, measured by the probe) name the dimension a failure lives in",
             "hook H1 re-exports the private StreamingDecoder",
         ],
-        explanation: "cuts1 and (thorough) cuts2 are exhaustive over the stated corpus sub-space; random is sampled. Not asserted: anything about messages the datagram parser rejects, several Content-Length headers in one message, what the error is when a stream is refused.",
+        explanation: "cuts1 and (thorough) cuts2 are exhaustive over the stated corpus sub-space; lines and pipes are full products of the listed values (halved by a parity rule in quick); random is sampled. Not asserted: anything about messages the datagram parser rejects, several Content-Length headers in one message, what the error is when a stream is refused, memory use, behaviour for heads above 4096 or bodies above 65535 bytes.",
         subs: vec![
             enum_sub("cuts1", cuts1_cases, check_corpus),
             enum_sub("cuts2", cuts2_cases, check_corpus),
+            enum_sub("lines", lines_cases, check_lines),
+            enum_sub("pipes", pipe_cases, check_pipe),
             prop_sub("random", strategy, 1500, 30000, check),
         ],
     }
